@@ -9,9 +9,10 @@
               "f_up":  ["-DV_SYNTAX", "-DV_K=1", "-DV_N0=2", "-DV_E00=EL_FOO", "-DV_E01=EL_UPACKED", "-DV_N1=0", "-DV_E10=0"],
               "fl_f":  ["-DV_SYNTAX", "-DV_K=1", "-DV_N0=2", "-DV_E00=EL_FOO_LIST", "-DV_E01=EL_FOO", "-DV_N1=0", "-DV_E10=0"]},
  "canary_variant": "p_p",
+ "cbmc_flags": ["--sat-solver", "cadical"],
  "kind": "bounded",
  "bound": "`__attribute__ (( e0 e1 )) ;` with (e0, e1) = (packed, packed), (foo, __packed__), (foo(1,1), foo): two attributes without a comma",
- "timeout": 200, "replay": false,
+ "timeout": 600, "replay": false,
  "assumes": ["FAILS on the pinned tree (genuine defect): gnuattrspec() loops `while (parseattr(..) || consume(TCOMMA))`, so the comma between attributes is optional: `int x __attribute__((unused used));` and `struct __attribute__((packed packed)) S { char c; int i; };` compile with exit status 0 (gcc: expected ')' before 'used'); GCC manual: an attribute list is a comma-separated sequence",
              "the harness is that of gnuattr_seq.c compiled with -DV_SYNTAX"]
 }
